@@ -127,7 +127,7 @@ _q.update({
     "inputs.line": 2500, "inputs.line.with_plateau": 1900, "inputs.line.len_ge_100": 300, "inputs.line.empty": 60,
     "weak_orders.with_ties": 1200000, "weak_orders.with_finite_interval": 800000, "weak_orders.with_dim1_interval": 120000,
     "expected.finite_dim0_intervals": 55000, "expected.finite_dim1_intervals": 9000, "emitted.zero_length_pairs": 250000,
-    "cmp.second.generic_route_vs_model": 750, "cmp.model_selftest": 10, "inputs.second.rect": 500, "inputs.second.line": 180,
+    "cmp.second.generic_route_vs_model": 750, "cmp.model_selftest": 11, "inputs.second.rect": 500, "inputs.second.line": 180,
     "types.double_unsigned": 7000, "types.double_size_t": 7000, "types.float_int": 7000, "types.int_unsigned": 7000, "types.double_long": 7000,
     "range.vector_double": 700, "range.vector_float": 300, "range.list_double": 300, "range.deque_float": 300, "range.vector_value_index": 700,
     "cases.rect.big": 24, "cases.rect.thin": 750, "cases.rect.small_ties": 150, "cases.rect.r3x3": 150,
@@ -138,7 +138,7 @@ _t.update({
     "call.line.value_index_pair": 500000, "inputs.rect": 500000, "inputs.rect.side_of_2": 50000, "inputs.line": 150000,
     "inputs.line.with_plateau": 100000, "inputs.line.len_ge_100": 15000, "inputs.line.empty": 3000,
     "weak_orders.with_dim1_interval": 500000, "expected.finite_dim1_intervals": 300000, "emitted.zero_length_pairs": 2000000,
-    "cmp.second.generic_route_vs_model": 30000, "cmp.model_selftest": 10, "cases.rect.big": 1200,
+    "cmp.second.generic_route_vs_model": 30000, "cmp.model_selftest": 11, "cases.rect.big": 1200,
     "_distinct_nontrivial": 300000,
 })
 SPEC["floors"] = {"quick": _q, "thorough": _t}
